@@ -164,6 +164,39 @@ def r_cache(fl, sh, rep):
     # the miss path stores a deep copy of the evaluated constant together with both deltas
     lits = [n for n in walk(body) if n["k"] == "Struct" and last(n["p"]) == "CachedConstant"]
     rep.check(len(lits) == 1 and sorted(f["name"] for f in lits[0]["fields"] if f["name"].endswith("_delta")) == deltas, "R09-CACHE", "miss#stores-every-delta", sh.loc(GEN, lits[0]) if lits else GEN, "the miss path must build one CachedConstant carrying %s" % deltas, sample={"literals": len(lits)})
+    # the cache is keyed by the constant's identity as the rest of the generator knows it: a structured (module, name)
+    # key. A key flattened into one string (module + separator + name) identifies two different constants whenever the
+    # separator also occurs in names; a hit then replays another constant's value.
+    cg = find_struct(fj, "CodeGenerator")
+    fld = [f for f in cg["fields"] if f["name"] == "cached_constants"]
+    if not fld:
+        raise AnchorMissing("field CodeGenerator::cached_constants")
+    m = re.match(r"^(?:[\w:]*::)?(?:Hash|Index|BTree)Map<(.*),\s*CachedConstant>$", fld[0]["ty"].replace(" ", ""))
+    key_ty = m.group(1) if m else None
+    key_struct = None
+    if key_ty and re.match(r"^[\w:]+$", key_ty):
+        for rel in ("crates/aiken-lang/src/ast.rs", GEN):
+            try:
+                key_struct = key_struct or find_struct(sh.file(rel), last(key_ty))
+            except AnchorMissing:
+                pass
+    parts = len(key_struct["fields"]) if key_struct else (key_ty.count(",") + 1 if key_ty and key_ty.startswith("(") else 0)
+    rep.check(parts >= 2, "R09-CACHE", "cached_constants#structured-key", sh.loc(GEN, cg), "cached_constants is keyed by `%s` (%d component(s)): the key must keep module and name apart (a struct or tuple with both), not a flattened string" % (key_ty, parts), sample={"key": key_ty, "components": parts})
+    if key_struct:
+        klits = [n for n in walk(body) if n["k"] == "Struct" and last(n["p"]) == key_struct["name"]]
+        # those literals that flow into the cache: defined in the same arm as the cached_constants accesses
+        acc = [n for n in walk(body) if n["k"] == "MethodCall" and n["m"] in ("get", "insert", "entry", "contains_key") and "cached_constants" in sh.nsrc(GEN, n["recv"])]
+        keyvars = {re.sub(r"^&|\.clone\(\)$", "", sh.nsrc(GEN, a["args"][0])) for a in acc if a["args"]}
+        feeding = [st for st in walk(body) if st["k"] == "Local" and st["pat"]["k"] == "Ident" and st["pat"]["name"] in keyvars and st.get("init") is not None]
+        ok = bool(acc) and bool(feeding)
+        for st in feeding:
+            lit = st["init"] if st["init"]["k"] == "Struct" else None
+            if lit is None or last(lit["p"]) != key_struct["name"]:
+                ok = False
+                continue
+            made = [x["k"] for f in lit["fields"] for x in walk(f["e"]) if x["k"] in ("Macro", "Lit", "If", "Match", "Binary")]
+            ok = ok and not made and {f["name"] for f in lit["fields"]} == {f["name"] for f in key_struct["fields"]}
+        rep.check(ok, "R09-CACHE", "cached_constants#key-from-module-and-name", sh.loc(GEN, feeding[0]) if feeding else GEN, "every cached_constants access must use a `%s` built field by field from the constant's module and name (no formatting, literals or conditionals): accesses %d, key definitions %d" % (key_struct["name"], len(acc), len(feeding)), sample={"accesses": len(acc), "key_vars": sorted(keyvars)})
 
 
 def r_hash(fl, sh, rep):
